@@ -11,13 +11,27 @@ use crate::tape::{hash_str, Tape};
 use std::collections::HashMap;
 
 fn run_prog(texts: &[String], replies: &[String], tron: bool, probes: &[String]) -> Option<(String, String)> {
+    run_prog_staged(texts, &[], replies, tron, probes, "RUN")
+}
+
+/// Like run_prog, but the lines of `later` are typed after the rest has been compiled once
+/// (a direct statement in between forces the compile).
+fn run_prog_staged(texts: &[String], later: &[String], replies: &[String], tron: bool, probes: &[String], cmd: &str) -> Option<(String, String)> {
     let mut term = Term::new();
     let mut o = Opts::default();
     o.replies = replies.iter().cloned().collect();
-    o.max_calls = 5000;
+    // (a run entered in the middle may not terminate: a small budget is enough to compare)
+    o.max_calls = if cmd == "RUN" { 5000 } else { 300 };
     for l in texts {
         term.enter_raw(l);
         term.run(&mut o);
+    }
+    if !later.is_empty() {
+        term.line("Q0=0", &mut o);
+        for l in later {
+            term.enter_raw(l);
+            term.run(&mut o);
+        }
     }
     if !term.take().is_empty() {
         return None;
@@ -26,7 +40,7 @@ fn run_prog(texts: &[String], replies: &[String], tron: bool, probes: &[String])
         term.line("TRON", &mut o);
         term.take();
     }
-    let end = term.line("RUN", &mut o);
+    let end = term.line(cmd, &mut o);
     let evs = term.take();
     if end != End::Stopped || has_panic(&evs).is_some() {
         return Some((format!("{}«{:?}»", flat(&evs), end), String::new()));
@@ -250,6 +264,36 @@ fn check_layout(t: &mut Tape, ctx: &Ctx) -> Outcome {
     if a.1 != b.1 {
         return Outcome::fail("layout-changed-final-state", format!("original: {:?}\ntransformed: {:?}", a.1, b.1), case);
     }
+    // the same layout reached by editing: the inserted whole lines are typed after a compile
+    let (first, later): (Vec<&Line>, Vec<&Line>) = tr.prog.lines.iter().partition(|l| tr.back.contains_key(&l.num));
+    if !later.is_empty() {
+        let f: Vec<String> = first.iter().map(|l| render_line(l).text).collect();
+        let l2: Vec<String> = later.iter().map(|l| render_line(l).text).collect();
+        // ... and an inserted line is a branch target like any other: RUN n reaches it
+        let n = later[t.below(later.len())].num;
+        let cmd = format!("RUN {}", n);
+        let b_n = run_prog_staged(&texts2, &[], &g.replies, tron, &probes, &cmd);
+        let c_n = run_prog_staged(&f, &l2, &g.replies, tron, &probes, &cmd);
+        if b_n != c_n {
+            return Outcome::fail(
+                "layout-reached-by-editing-differs",
+                format!("{} with the transformed program typed in one go:\n{:?}\n--- with the inserted lines {:?} typed after a compile:\n{:?}", cmd, b_n, l2, c_n),
+                case,
+            );
+        }
+        match run_prog_staged(&f, &l2, &g.replies, tron, &probes, "RUN") {
+            Some(c) => {
+                if c != b {
+                    return Outcome::fail(
+                        "layout-reached-by-editing-differs",
+                        format!("transformed program typed in one go:\n{}\n--- the inserted lines {:?} typed after a compile:\n{}", b.0, l2, c.0),
+                        case,
+                    );
+                }
+            }
+            None => return Outcome::fail("transformed-program-entry-printed", "typing the transformed program in two stages printed something".into(), case),
+        }
+    }
     // non-trivial: something was inserted/split before a line that is a jump target
     let refs: Vec<u16> = referenced(&tr.prog);
     let nt = match tr.moved_before {
@@ -292,7 +336,8 @@ fn check_direct_vs_program(t: &mut Tape, ctx: &Ctx) -> Outcome {
     let o = GenOpts::full();
     let d1 = render_stmts(&gen::direct_list(t, &o));
     let d2 = render_stmts(&gen::direct_list(t, &o));
-    let directs = vec![d1, d2, "PRINT A;B;C;A%;B%;A#;X;Y%;A$;B$;S$;I;J%;K".to_string()];
+    // (a loop that starts the direct line jumps back to the very first direct instruction)
+    let directs = vec![d1, d2, "WHILE W9<2:W9=W9+1:PRINT W9;:WEND:PRINT".to_string(), "PRINT A;B;C;A%;B%;A#;X;Y%;A$;B$;S$;I;J%;K".to_string()];
     let p1 = if t.chance(1, 4) { vec![] } else { gen::program(t, &GenOpts::plain()).prog.texts() };
     let p2 = if t.chance(1, 4) { vec![] } else { gen::program(t, &GenOpts::full()).prog.texts() };
     let case = format!("direct lines:\n{}\n--- with program 1 in memory:\n{}\n--- with program 2 in memory:\n{}", directs.join("\n"), p1.join("\n"), p2.join("\n"));
@@ -300,6 +345,17 @@ fn check_direct_vs_program(t: &mut Tape, ctx: &Ctx) -> Outcome {
     let a = run_direct(&p1, &directs);
     let b = run_direct(&p2, &directs);
     let c = run_direct(&[], &directs);
+    // a program that does not link is a program in memory too: direct lines that stay inside
+    // themselves must not notice it
+    let mut p3 = p1.clone();
+    p3.push(t.pick(&["65001 GOTO 64999", "65001 WHILE 1", "65001 PRINT )", "65001 WEND"]).to_string());
+    let d = run_direct(&p3, &directs);
+    if let (Some(d), Some(c)) = (&d, &c) {
+        if d != c {
+            return Outcome::fail("direct-statement-depends-on-program", format!("no program: {:?}
+program 1 plus a line with a compile-time error ({}):  {:?}", c, p3.last().unwrap(), d), case);
+        }
+    }
     match (a, b, c) {
         (Some(a), Some(b), Some(c)) => {
             if a != c || b != c {
